@@ -521,6 +521,7 @@ func (c *Ctx) renameRule(id string, m *trackerModel) {
 		return false
 	}
 	var del, upd, rng, loopDel, loopUpd *renStep
+	var rngs []*renStep // every range over the nick's channels (a snapshot helper has one too)
 	depthOf := func(st renStep) int {
 		d := c.LoopDepth(st.in.Block())
 		for _, cs := range st.ctx {
@@ -537,13 +538,40 @@ func (c *Ctx) renameRule(id string, m *trackerModel) {
 			case op.Field == m.stNicks && op.Kind == "update" && isNeu(op.Key, it.ctx) && nk != nil && res(op.Val, it.ctx) == nk:
 				upd = st
 			case op.Kind == "range" && op.Field == m.nkChans && nk != nil && res(op.Base, it.ctx) == nk:
-				rng = st
+				rngs = append(rngs, st)
 			case op.Field == m.chLookup && op.Kind == "delete" && isOld(op.Key, it.ctx) && depthOf(*st) == 1:
 				loopDel = st
 			case op.Field == m.chLookup && op.Kind == "update" && isNeu(op.Key, it.ctx) && nk != nil && res(op.Val, it.ctx) == nk && depthOf(*st) == 1:
 				loopUpd = st
 			}
 		}
+	}
+	// the range that matters is the one whose body holds the lookup edits
+	for _, cand := range rngs {
+		if loopDel == nil {
+			rng = cand
+			break
+		}
+		if len(loopDel.ctx) < len(cand.ctx) {
+			continue
+		}
+		same := true
+		for i := range cand.ctx {
+			if cand.ctx[i] != loopDel.ctx[i] {
+				same = false
+			}
+		}
+		var inBody ssa.Instruction = loopDel.in
+		if len(loopDel.ctx) > len(cand.ctx) {
+			inBody = loopDel.ctx[len(cand.ctx)]
+		}
+		if same && inBody.Parent() == cand.in.Parent() && blockDom(cand.in.Block(), inBody.Block()) {
+			rng = cand
+			break
+		}
+	}
+	if rng == nil && len(rngs) > 0 {
+		rng = rngs[0]
 	}
 	have := nameStore != nil && del != nil && upd != nil && rng != nil && loopDel != nil && loopUpd != nil
 	r.Add(id, "rename-steps", c.Pos(fn.Pos()), c.FuncKey(fn), "ReNick (with its helpers) contains: name store, nick-map delete(old)+store(neu), range over the nick's channels with lookup delete(old)+store(neu)", have,
@@ -693,11 +721,8 @@ func (c *Ctx) gcRule(id string, m *trackerModel, nickDel *ssa.Function) {
 		for _, cs := range CallSites(dis) {
 			if cs.Common().StaticCallee() == m.delChanFn {
 				for _, cd := range CondsAt(cs.Block()) {
-					cd = unwrapNot(cd)
-					if bo, ok := cd.V.(*ssa.BinOp); ok && bo.Op == token.EQL && cd.True {
-						if isMeLoad(bo.X, m.stMe) || isMeLoad(bo.Y, m.stMe) {
-							okSelf = true
-						}
+					if _, isMe, ok := c.meCompare(cd, m.stMe); ok && isMe {
+						okSelf = true
 					}
 				}
 			}
@@ -777,6 +802,75 @@ func lenOfField(v ssa.Value, fv *types.Var, base ssa.Value) bool {
 
 func isMeLoad(v ssa.Value, me *types.Var) bool { fv, _ := loadedField(v); return fv == me }
 
+// meCompare reads a branch condition as "obj is (not) the client's own
+// record": a pointer comparison with a load of the tracker's me field, or a
+// call of a predicate helper whose body is exactly such a comparison of its
+// parameter. Returns the compared object and whether the edge means "is me".
+func (c *Ctx) meCompare(cd Cond, me *types.Var) (obj ssa.Value, isMe bool, ok bool) {
+	cd = unwrapNot(cd)
+	switch v := cd.V.(type) {
+	case *ssa.BinOp:
+		if v.Op != token.EQL && v.Op != token.NEQ {
+			return nil, false, false
+		}
+		switch {
+		case isMeLoad(v.Y, me):
+			obj = v.X
+		case isMeLoad(v.X, me):
+			obj = v.Y
+		default:
+			return nil, false, false
+		}
+		return obj, (v.Op == token.EQL) == cd.True, true
+	case *ssa.Call:
+		h := v.Call.StaticCallee()
+		if h == nil || v.Call.IsInvoke() || !c.InModuleFn(h) || h.Package() != c.State {
+			return nil, false, false
+		}
+		// every return of h is <param> == st.me (or its negation)
+		var pIdx = -1
+		eq, n, good := true, 0, true
+		funcInstrs(h, func(in ssa.Instruction) {
+			rt, isR := in.(*ssa.Return)
+			if !isR || len(rt.Results) != 1 {
+				return
+			}
+			n++
+			bo, isB := retVal(rt, 0).(*ssa.BinOp)
+			if !isB || (bo.Op != token.EQL && bo.Op != token.NEQ) {
+				good = false
+				return
+			}
+			var other ssa.Value
+			switch {
+			case isMeLoad(bo.Y, me):
+				other = bo.X
+			case isMeLoad(bo.X, me):
+				other = bo.Y
+			default:
+				good = false
+				return
+			}
+			pr, isP := other.(*ssa.Parameter)
+			if !isP {
+				good = false
+				return
+			}
+			for i, q := range h.Params {
+				if q == pr {
+					pIdx = i
+				}
+			}
+			eq = bo.Op == token.EQL
+		})
+		if !good || n != 1 || pIdx < 0 || pIdx >= len(v.Call.Args) {
+			return nil, false, false
+		}
+		return v.Call.Args[pIdx], eq == cd.True, true
+	}
+	return nil, false, false
+}
+
 // selfRule: every delete on the tracker's nick map is a rename (followed by a
 // store of the same object) or guarded by nk != st.me on every call chain.
 func (c *Ctx) selfRule(id string, m *trackerModel) {
@@ -786,12 +880,8 @@ func (c *Ctx) selfRule(id string, m *trackerModel) {
 	guarded = func(fn *ssa.Function, at ssa.Instruction, obj ssa.Value, depth int) (bool, string) {
 		// guard in this function: dominating edge nk != st.me
 		for _, cd := range CondsAt(at.Block()) {
-			cd = unwrapNot(cd)
-			if bo, ok := cd.V.(*ssa.BinOp); ok && (bo.Op == token.NEQ || bo.Op == token.EQL) {
-				ne := (bo.Op == token.NEQ) == cd.True
-				if ne && ((bo.X == obj && isMeLoad(bo.Y, m.stMe)) || (bo.Y == obj && isMeLoad(bo.X, m.stMe))) {
-					return true, "guarded by != me in " + c.FuncKey(fn)
-				}
+			if o, isMe, ok := c.meCompare(cd, m.stMe); ok && !isMe && o == obj {
+				return true, "guarded by != me in " + c.FuncKey(fn)
 			}
 		}
 		if depth > 4 {
@@ -837,7 +927,7 @@ func (c *Ctx) selfRule(id string, m *trackerModel) {
 			}
 			// the deleted object: key is obj.nick
 			var obj ssa.Value
-			if fv, base := loadedField(op.Key); fv != nil && fv.Name() == "nick" {
+			if fv, base := loadedField(op.Key); fv != nil && fv == c.FieldVar(c.State, "nick", "nick") {
 				obj = base
 			}
 			ok, why := false, "deleted object not identified"
@@ -1208,7 +1298,7 @@ func (c *Ctx) allowedGuard(cd Cond, line ssa.Value) bool {
 	switch v := cd.V.(type) {
 	case *ssa.Call:
 		n := calleeName(&v.Call)
-		if cal := v.Call.StaticCallee(); cal != nil && cal.Name() == "argslen" {
+		if cal := v.Call.StaticCallee(); cal != nil && cal.Name() == c.nm("argslen") {
 			return true
 		}
 		if n == "(*"+modPath+"/state.Nick).Equals" {
